@@ -227,6 +227,61 @@ def rule_complex_adapter(ck, units):
                   'value() gives ' + '; '.join(bad) + (': the adapter represents conj(A), not A' if all(got[k] in ('re', 'im', '-im') for k in got) else ''))
 
 
+def rule_flat_extent(ck, units, floor=6):
+    """flat-extent: static_matrix<T, N, M> stores its N*M entries in one flat array; element-wise operations (+=, -=, scaling, norm,
+    is_zero, zero, constant, the vector inner product) walk it with a single index.  In every instantiation the bound of such a loop is the
+    number of entries N*M of the matrix it indexes with that single index (a bound of N visits the first row only)."""
+    ck.rule('flat-extent', 'value_type/static_matrix.hpp: a loop that addresses a static_matrix<T, N, M> with a single flat index (buf[i], x(i)) runs over all N*M entries '
+                           '(compile-time bound per instantiation)', floor)
+    seen = set()
+    for u in units.values():
+        for f in u.funcs:
+            if f.body is None or not f.rel().startswith('amgcl/value_type/static_matrix.hpp'):
+                continue
+            for L in f.nodes.values():
+                if L['k'] != 'for' or L.get('c') is None:
+                    continue
+                c = unwrap(L['c'])
+                if c is None or c['k'] != 'bin' or c['op'] != '<' or unwrap(c['x'])['k'] != 'ref':
+                    continue
+                iv = unwrap(c['x'])['d']
+                bnd = unwrap(c['y'])
+                bval = None
+                if bnd is not None and bnd.get('cv') is not None:
+                    bval = int(bnd['cv'])
+                elif bnd is not None and bnd['k'] == 'lit' and bnd.get('t') == 'int':
+                    bval = int(bnd['v'])
+                types = set()
+                for n in walk(L['b']):
+                    obj = None
+                    if n['k'] == 'idx' and unwrap(n['x'])['k'] == 'ref' and unwrap(n['x'])['d'] == iv:
+                        b = unwrap(n['b'])
+                        if b is not None and b['k'] == 'mem' and b.get('n') == 'buf':
+                            obj = unwrap(b.get('b')) if b.get('b') is not None else {'k': 'this'}
+                    elif n['k'] == 'call' and (n.get('f') or '').endswith('static_matrix::operator()') and len(n.get('a', [])) == 1 \
+                            and unwrap(n['a'][0])['k'] == 'ref' and unwrap(n['a'][0])['d'] == iv:
+                        obj = unwrap(n['obj']) if n.get('obj') is not None else {'k': 'this'}
+                    if obj is None:
+                        continue
+                    if obj['k'] == 'ref':
+                        types.add(u.type(f.decl(obj['d']).get('ct')))
+                    elif obj['k'] == 'this':
+                        types.add(f.clsfull or '')
+                for t in types:
+                    m = re.search(r'static_matrix<[^<>]*?,\s*(\d+),\s*(\d+)>', t)
+                    if not m:
+                        continue
+                    ext = int(m.group(1)) * int(m.group(2))
+                    key = '%s|%s|line-of-loop-in-%s' % ('::'.join(f.q.split('::')[-2:]), m.group(0).replace(' ', ''), f.q.split('::')[-1])
+                    if (key, L.get('l')) in seen:
+                        continue
+                    seen.add((key, L.get('l')))
+                    ok = bval is not None and bval == ext
+                    ck.ob('flat-extent', key + '@%s' % L.get('l'), f.where(L), ok, '' if ok else
+                          'the loop at %s addresses %s with a single flat index but runs to %s, the matrix has %d entries: only a part of the block is visited' % (
+                              f.where(L), m.group(0), bval if bval is not None else show(bnd), ext))
+
+
 def rule_witness(ck):
     """compile-fail witnesses: tus/type_witness.cpp holds one static_assert per identity of the value-type traits / backend mixing rules;
     the unit is compiled (syntax only) against the current /repo, a failing assertion is a violation of that witness"""
@@ -273,6 +328,7 @@ def main(tier):
     rule_view(ck, units)
     rule_view_extent(ck, units)
     rule_complex_adapter(ck, units)
+    rule_flat_extent(ck, units)
     rule_witness(ck)
     ck.assumptions += ['that block, complex-adapter, hybrid-backend and scalar formulations have the same entries / solutions, and that the mixed-precision solver reaches 1e-8, is numerical and NOT decided']
     return ck.finish()
